@@ -125,6 +125,7 @@ Section Refine.
              ++ exfalso. lia.
              ++ rewrite K. cbn [fst snd proj]. split; [reflexivity|split; assumption].
              ++ rewrite K. cbn [fst snd proj]. split; [reflexivity|]. rewrite cell_is_wcell.
+                destruct (c_del_expired c); [|split; assumption]. unfold Routing.st_del_if.
                 split; [exact Hnow|]. intro t.
                 destruct (list_eqb t t0) eqn:E.
                 ** apply list_eqb_iff in E. subst t. cbn [Routing.now Routing.st_del Routing.bnow]. split.
